@@ -31,7 +31,15 @@ def canon_place(body, place, env_alias, depth=0):
     l = place["l"]
     base = canon_local(body, l, env_alias, depth)
     s = base
-    for pe in place["p"]:
+    proj = place["p"]
+    # `(_t.0)` of `_t = AddWithOverflow(a, b)` is just `Add(a,b)`: keeps names equal between
+    # builds with and without overflow checks
+    if proj and proj[0]["k"] == "field" and proj[0].get("tuple") and proj[0]["idx"] == 0:
+        defs = [d for d in body.defs.get(l, []) if d[0] in ("assign", "call")]
+        if len(defs) == 1 and defs[0][0] == "assign" and defs[0][3]["k"] == "assign" \
+                and defs[0][3]["rv"]["k"] == "binop" and defs[0][3]["rv"]["op"].endswith("WithOverflow"):
+            proj = proj[1:]
+    for pe in proj:
         k = pe["k"]
         if k == "deref":
             continue  # auto-deref is irrelevant for identity of the tested value
@@ -40,15 +48,19 @@ def canon_place(body, place, env_alias, depth=0):
         elif k == "downcast":
             s += "@" + str(pe.get("variant", pe.get("idx")))
         elif k == "index":
-            s += "[_%d]" % pe["local"]
+            s += "[%s]" % canon_local(body, pe["local"], env_alias, depth + 1)
         else:
             s += "{%s}" % k
     return s
 
 
 def canon_local(body, l, env_alias, depth=0):
+    """Stable textual identity of a local: what it was computed from.  Never mentions MIR local
+    numbers (they change with unrelated edits): multi-definition locals are named by their source
+    variable name, anonymous ones by `tmp`."""
+    nm = body.locals[l].get("name")
     if depth > 12:
-        return "_%d" % l
+        return "var:" + nm if nm else "tmp"
     if l in env_alias:
         return env_alias[l]
     if 1 <= l <= body.arg_count:
@@ -58,22 +70,42 @@ def canon_local(body, l, env_alias, depth=0):
         d = defs[0]
         if d[0] == "assign" and d[3]["k"] == "assign":
             rv = d[3]["rv"]
-            if rv["k"] == "use" and rv["op"]["k"] in ("copy", "move"):
-                return canon_place(body, rv["op"]["place"], env_alias, depth + 1)
-            if rv["k"] == "ref":
+            k = rv["k"]
+            if k == "use":
+                return canon_operand(body, rv["op"], env_alias, depth + 1)
+            if k in ("ref", "rawptr"):
                 return canon_place(body, rv["place"], env_alias, depth + 1)
+            if k == "cast":
+                return canon_operand(body, rv["op"], env_alias, depth + 1)
+            if k == "binop":
+                op = rv["op"].replace("WithOverflow", "")
+                return "%s(%s,%s)" % (op, canon_operand(body, rv["a"], env_alias, depth + 1), canon_operand(body, rv["b"], env_alias, depth + 1))
+            if k == "unop":
+                return "%s(%s)" % (rv["op"], canon_operand(body, rv["a"], env_alias, depth + 1))
+            if k == "aggregate":
+                what = rv.get("agg")
+                if what == "adt":
+                    what = norm(rv["adt"]).split("::")[-1]
+                    if rv.get("variant") and rv["variant"] != what:
+                        what += "::" + rv["variant"]
+                elif what == "closure":
+                    what = "closure"
+                return "%s{%s}" % (what, ",".join(canon_operand(body, o, env_alias, depth + 1) for o in rv["ops"]))
+            if k == "discr":
+                return "discr(%s)" % canon_place(body, rv["place"], env_alias, depth + 1)
         if d[0] == "call":
             t = d[2]
-            nm = norm(t.get("resolved") or t.get("callee") or "<fnptr>")
-            args = []
-            for a in t["args"]:
-                if a["k"] in ("copy", "move"):
-                    args.append(canon_place(body, a["place"], env_alias, depth + 1))
-                else:
-                    args.append(render_const(a))
-            short = nm.split("::")[-1]
+            fn = norm(t.get("resolved") or t.get("callee") or "<fnptr>")
+            args = [canon_operand(body, a, env_alias, depth + 1) for a in t["args"]]
+            short = fn.split("::")[-1]
             return "%s(%s)" % (short, ",".join(args))
-    return "_%d" % l
+    return "var:" + nm if nm else "tmp"
+
+
+def canon_operand(body, op, env_alias, depth=0):
+    if op["k"] in ("copy", "move"):
+        return canon_place(body, op["place"], env_alias, depth)
+    return render_const(op)
 
 
 def render_const(op):
